@@ -134,7 +134,8 @@ func IsIdent(s string) bool {
 }
 
 func nameTok(n *Node) Tok {
-	if n.QuoteNam || !IsIdent(n.Name) {
+	if n.QuoteNam || !IsIdent(n.Name) || KeywordLike(n.Name) {
+		// (a bare keyword-like name is outside the specified domain)
 		return Str(n.Name)
 	}
 	return Ident(n.Name)
